@@ -88,6 +88,9 @@ def gen_dary_case(rng, cid, nops):
             lines.append("drain")
             content = []
             unsure = False
+        elif k < 0.96:
+            lines.append(rng.choice([f"reserve {rng.choice([0, 1, len(content), len(content) + 1, 17, 64, 300])}",
+                                     "capacity", "copy", "move"]))
         else:
             lines.append(rng.choice(["size", "empty", "sanity", "top"]) if content else "size")
     return lines
@@ -165,6 +168,25 @@ def gen_addr_case(rng, cid, nops):
             unc = set()
         elif invalid and inheap:
             lines.append(f"push {sorted(inheap)[0]}")      # already present: must be refused
+        elif k < 0.985:
+            # reserve(n) with n below / at / above the largest stored key, the size and the (small) capacity
+            stored = sorted(inheap | unc)
+            big = stored[-1] if stored else rng.randrange(U)
+            n = rng.choice([0, 1, len(stored), len(stored) + 1, len(stored) + 3, 2 * len(stored) + 1,
+                            max(0, big - 1), big, big + 1, big // 2, 17, U, 100])
+            lines.append(f"reserve {n}")
+            if rng.random() < 0.6 and stored:
+                # the handles of the stored keys must have survived
+                lines.append(f"contains {big}")
+                kk = rng.choice(stored)
+                if kk in inheap:
+                    lines.append(rng.choice([f"remove {kk}", f"upd {kk} {rng.randint(-8, 8)}"]))
+                    if lines[-1].startswith("remove"):
+                        inheap.discard(kk)
+                    else:
+                        pr.p[kk] = int(lines[-1].split()[2])
+        elif k < 0.992:
+            lines.append(rng.choice(["capacity", "copy", "move"]))
         else:
             lines.append(rng.choice(["size", "empty", "sanity"]))
     return lines
@@ -223,7 +245,7 @@ def gen_radix_case(rng, cid, nops):
                 lines.append(f"push {key}")
                 continue
             # incl. the hint overloads push_to_bucket / emplace_in_bucket (index from get_bucket[_key])
-            lines.append(f"{rng.choice(['push', 'push', 'emplace', 'pushb', 'pushb', 'emplaceb'])} {key}")
+            lines.append(f"{rng.choice(['push', 'push', 'emplace', 'emplacekf', 'pushb', 'pushb', 'emplaceb'])} {key}")
             bisect.insort(keys, key)
         elif k < 0.55:
             lines.append("top")
@@ -241,7 +263,7 @@ def gen_radix_case(rng, cid, nops):
         elif k < 0.88:
             lines.append("peak")
         elif k < 0.92:
-            lines.append(rng.choice(["size", "empty"]))
+            lines.append(rng.choice(["size", "empty", "copy", "move"]))
         elif k < 0.935 and keys:
             lines.append("drain")
             frontier = keys[-1]
